@@ -93,7 +93,7 @@ func runCase(t *testing.T, model *hx.Model, cfg config, next func(s *sut, v *vie
 			}
 			res.validated = true
 		}
-		for res.disagree == "" && res.abandoned == "" {
+		for res.disagree == "" && res.abandoned == "" && s.panicCount() == 0 {
 			op, more := next(s, v, summary)
 			if !more {
 				break
@@ -145,6 +145,10 @@ func runCase(t *testing.T, model *hx.Model, cfg config, next func(s *sut, v *vie
 				}
 			}
 			line, want, ok := s.apply(v, op)
+			if s.panicCount() > 0 {
+				res.script = append(res.script, op)
+				break
+			}
 			if !ok {
 				continue
 			}
@@ -243,14 +247,14 @@ func runCase(t *testing.T, model *hx.Model, cfg config, next func(s *sut, v *vie
 				res.disagree = fmt.Sprintf("%q: release loop calls impl=%v model=%v", line, gr, er)
 			}
 		}
-		if res.abandoned == "" {
+		if res.abandoned == "" && s.panicCount() == 0 {
 			res.viol = append(res.viol, s.finish(v)...)
 		}
-		res.viol = append(res.viol, s.checkLog(v, cancelSeq, res.abandoned == "")...)
+		res.viol = append(res.viol, s.checkLog(v, cancelSeq, res.abandoned == "" && s.panicCount() == 0)...)
 		s.shutdown()
 		s.mu.Lock()
 		for _, p := range s.panics {
-			res.viol = append(res.viol, violation{"a syncer goroutine panicked", p})
+			res.viol = append(res.viol, violation{"the syncer or the block list panicked", p})
 		}
 		s.mu.Unlock()
 	})
@@ -273,4 +277,10 @@ func nextDeadline(summary string, def int) int {
 		return def
 	}
 	return best
+}
+
+func (s *sut) panicCount() int {
+	s.mu.Lock()
+	defer s.mu.Unlock()
+	return len(s.panics)
 }
